@@ -253,6 +253,8 @@ MUTANTS = [
      "binning, self.sum_weights2[item], self.sum_weights1[item], auto=self.auto"),
     ("c17-sub-adds-samples", ["C17"], "correlation/corrdata.py",
      "            self.samples - other.samples,", "            self.samples + other.samples,"),
+    ("c17-add-member-sets-unchecked", ["C17"], "correlation/corrfunc.py",
+     "        if set(self.to_dict()) != set(other.to_dict()):", "        if False:"),
     ("c17-mul-bool-accepted", ["C17"], "correlation/paircounts.py",
      "        if not np.isscalar(other) or isinstance(other, (bool, np.bool_)):\n            return NotImplemented\n\n        return type(self)(self.binning, self.counts * other",
      "        if not np.isscalar(other):\n            return NotImplemented\n\n        return type(self)(self.binning, self.counts * other"),
